@@ -384,3 +384,54 @@ def inline_calls(t, fx, depth=2, _seen=(), only=None):
     if isinstance(t[0], str):
         return tuple(inline_calls(x, fx, depth, _seen, only) if isinstance(x, tuple) else x for x in t)
     return tuple(inline_calls(x, fx, depth, _seen, only) if isinstance(x, tuple) else x for x in t)
+
+
+def entailed_atoms(cond_terms):
+    """Atoms (non-And/Or/Not sub-formulas) that hold in EVERY truth assignment satisfying all of `cond_terms`
+    (a list of (term, holds) pairs). Propositional only: atoms are opaque; at most 12 distinct atoms (else only the
+    syntactic conjuncts are returned)."""
+    import itertools
+
+    atoms = []
+
+    def collect(c):
+        if isinstance(c, tuple) and c and c[0] == "bin" and c[1] in ("And", "Or"):
+            collect(c[2]); collect(c[3]); return
+        if isinstance(c, tuple) and c and c[0] == "un" and c[1] == "Not":
+            collect(c[2]); return
+        if c not in atoms:
+            atoms.append(c)
+
+    for c, _ in cond_terms:
+        collect(c)
+
+    def ev(c, asg):
+        if isinstance(c, tuple) and c and c[0] == "bin" and c[1] == "And":
+            return ev(c[2], asg) and ev(c[3], asg)
+        if isinstance(c, tuple) and c and c[0] == "bin" and c[1] == "Or":
+            return ev(c[2], asg) or ev(c[3], asg)
+        if isinstance(c, tuple) and c and c[0] == "un" and c[1] == "Not":
+            return not ev(c[2], asg)
+        return asg[c]
+
+    if len(atoms) > 12:
+        out = []
+
+        def conj(c, holds):
+            if isinstance(c, tuple) and c and c[0] == "un" and c[1] == "Not":
+                return conj(c[2], not holds)
+            if isinstance(c, tuple) and c and c[0] == "bin" and ((c[1] == "And" and holds) or (c[1] == "Or" and not holds)):
+                conj(c[2], holds); conj(c[3], holds); return
+            if holds:
+                out.append(c)
+
+        for c, h in cond_terms:
+            conj(c, h)
+        return out
+    always = None
+    for bits in itertools.product((False, True), repeat=len(atoms)):
+        asg = dict(zip(atoms, bits))
+        if all(ev(c, asg) == h for c, h in cond_terms):
+            true_now = {a for a in atoms if asg[a]}
+            always = true_now if always is None else (always & true_now)
+    return list(always) if always is not None else list(atoms)  # unreachable point: everything holds vacuously
